@@ -1312,7 +1312,10 @@ class AnyPayloadDecoder(AbstractSimplePayloadDecoder):
                 LOG('decoding as untagged ANY, header substrate %s' % debug.hexdump(chunk))
 
         # Any components do not inherit initial tag
-        asn1Spec = self.protoComponent
+        componentSpec, asn1Spec = asn1Spec, self.protoComponent
+
+        # whoever asked for raw substrate gets it back
+        callerSubstrateFun = substrateFun
 
         if substrateFun and substrateFun is not self.substrateCollector:
             asn1Object = self._createComponent(
@@ -1347,11 +1350,15 @@ class AnyPayloadDecoder(AbstractSimplePayloadDecoder):
 
             chunk += component
 
-        if substrateFun:
-            yield chunk  # TODO: Weird
+        if not isTagged:
+            # untagged ANY holds the whole TLV including its end-of-octets
+            chunk += EOO_SENTINEL
+
+        if callerSubstrateFun:
+            yield chunk
 
         else:
-            yield self._createComponent(asn1Spec, tagSet, chunk, **options)
+            yield self._createComponent(componentSpec, tagSet, chunk, **options)
 
 
 # character string types
